@@ -7,9 +7,9 @@ sys.path.insert(0, os.path.dirname(os.path.dirname(os.path.abspath(__file__))))
 import core   # noqa: E402
 import amod   # noqa: E402
 
-INVS = ["InOrder", "Lossless", "Parallelism", "Bound", "CbSafe", "FailedNeverSignalled", "RcBalance"]
+INVS = ["InOrder", "Lossless", "Parallelism", "Bound", "CbSafe", "FailedNeverSignalled", "RcBalance", "RaisedOnlyRejected"]
 INV_PROP = {"InOrder": "C02", "Lossless": "C02", "Parallelism": "C03", "Bound": "C03", "EmitsComplete": "C03", "AllDelivered": "C02",
-            "CbSafe": "C04", "FailedNeverSignalled": "C04", "RcBalance": "C05"}
+            "CbSafe": "C04", "FailedNeverSignalled": "C04", "RcBalance": "C05", "RaisedOnlyRejected": "C16"}
 
 
 def adapt(run):
@@ -34,6 +34,8 @@ def adapt(run):
             out.append({"ev": "FuncFinish", "e": ev["e"]})
         elif k == "func_fail":
             out.append({"ev": "FuncFail", "e": ev["e"]})
+        elif k == "func_reject":
+            out.append({"ev": "FuncReject", "e": ev["e"]})
         elif k == "deliver":
             delivered.update(ev["x"])
             out.append({"ev": "CbEmit", "e": ev["x"][0] if len(ev["x"]) == 1 else -1, "md": ev["md"]})
@@ -76,6 +78,10 @@ def attribute(run, trace, idx):
         if waiting:
             return "C03", ("%s of element %s while the earlier element(s) %s had not been accepted yet: it has overtaken them"
                            % (k, e, waiting)), ["C02"]
+    if k == "FuncReject":
+        return "C16", "the function rejected element %s at the call: the specification expects the job to leave without a task" % ev.get("e")
+    if k == "EmitRaised" and any(x["ev"] == "FuncReject" and x["e"] == ev.get("e") for x in trace[:idx - 1]):
+        return "C16", "emit of the rejected element %s" % ev.get("e")
     if k in ("FuncStart", "ObsQ", "EmitDone", "EmitRaised"):
         return "C03", "%s: more functions started / jobs accepted than the parallelism allows, or an emit completed too early" % k
     if k in ("Release", "FiredElsewhere", "Arrive"):
@@ -147,6 +153,8 @@ def run(tier, seed, mutant=None, only_validate=False):
             cfgs.append({"kind": "map_async", "parallelism": p, "cons": ["sync"], "max_elems": ne + 1, "fine": True, "schedules": fine})
         cfgs += [{"kind": "map_async", "parallelism": p, "cons": ["future"], "max_elems": ne, "faults": True}
                  for p in ((1, 2) if tier == "quick" else (1, 2, 3))]
+        # a plain callable that may raise when it is called (before any awaitable exists)
+        cfgs += [{"kind": "map_async", "parallelism": p, "cons": ["future"], "max_elems": ne, "faults": True, "reject": True} for p in (1, 2)]
         amod.node_engine(res, work, node="map_async", trace_module="AsyncMapAsyncTrace", cfgs=cfgs,
                          consts_of=lambda c: dict(NE=c["max_elems"], P=c["parallelism"], SyncCons=c["cons"][0] == "sync", MaxOut=c["max_elems"], Legacy=False, EarlySlot=True, Faults=True, ReleaseFailed=False),
                          adapt=adapt, attribute=attribute, seed=seed, depth=8 if tier == "quick" else 10,
